@@ -9,8 +9,8 @@
     paths - in the unweighted case even different unrankers; they agree because
     both unrankers enumerate the same set of words (C13).  Proof file. *)
 From Coq Require Import ZArith List Bool Arith Lia Permutation.
-From SP Require Import Design.Flat Design.Layout Comb.CombModel Comb.CombSpec Random.Enum Random.RunLemmas
-  Random.FragPerm Random.Frag0Keys.
+From SP Require Import Design.Flat Design.Layout Comb.CombModel Comb.CombSpec Random.Enum Random.Frag Random.RunLemmas
+  Random.FragPerm Random.ListFacts.
 From SP Require Comb.PermProofs Comb.RadixProofs Comb.MultiProofs Comb.PrefixProofs Comb.StackProofs
   Comb.SessionProofs Comb.DispatchProofs.
 Import ListNotations.
@@ -485,7 +485,7 @@ Proof.
     { exact Hr. }
     pose proof (Forall2_length' _ _ _ HB) as Hlen. rewrite seq_length in Hlen.
     assert (Hfst : map fst (combine (seq 0 P) (map (nthc (sh_combs sh)) wsB)) = seq 0 P).
-    { apply Frag0Decode.map_fst_combine. rewrite map_length, seq_length. exact Hlen. }
+    { apply map_fst_combine. rewrite map_length, seq_length. exact Hlen. }
     rewrite Er. split.
     + apply blocks_NoDup. rewrite Hfst. apply seq_NoDup.
     + right. split; [reflexivity|]. exists wsB. split; [exact HB|]. split; [exact Hrng|].
@@ -504,7 +504,7 @@ Qed.
 (** ** both sides together *)
 Lemma prodZl_const l s0 : (forall x, In x l -> x = s0) -> prodZl l = s0 ^ Z.of_nat (length l).
 Proof.
-  intros H. rewrite Frag0Enum.prodZl_fold_right. induction l as [|x t IH]; [reflexivity|].
+  intros H. rewrite prodZl_fold_right. induction l as [|x t IH]; [reflexivity|].
   cbn [fold_right length]. rewrite IH by (intros y Hy; apply H; right; exact Hy).
   rewrite (H x (or_introl eq_refl)). rewrite Nat2Z.inj_succ, Z.pow_succ_r by lia. reflexivity.
 Qed.
@@ -560,7 +560,7 @@ Lemma fold_add_nonneg l acc : 0 <= acc -> Forall (fun x => 0 <= x) l -> 0 <= fol
 Proof. intros Ha H. revert acc Ha. induction H as [|x t Hx Ht IH]; intros acc Ha; cbn [fold_left]; [exact Ha|]. apply IH. lia. Qed.
 
 Lemma combination_weight_nonneg di : 0 <= combination_weight fb di.
-Proof. rewrite <- Frag0Enum.combo_weight_Z. lia. Qed.
+Proof. rewrite <- combo_weight_Z. lia. Qed.
 
 (** the parameters the combinatorics module is called with are in order *)
 Lemma enum_base_params eb : enum_base_of fb = ROk eb ->
@@ -603,7 +603,7 @@ Qed.
 
 Lemma prodZl_nonneg l : Forall (fun x => 0 <= x) l -> 0 <= prodZl l.
 Proof.
-  intros H. rewrite Frag0Enum.prodZl_fold_right. induction H as [|x t Hx Ht IH]; cbn [fold_right]; [lia | nia].
+  intros H. rewrite prodZl_fold_right. induction H as [|x t Hx Ht IH]; cbn [fold_right]; [lia | nia].
 Qed.
 
 Lemma keys_structure (P R : nat) (cs : list comp) (ls : list (option comp)) :
